@@ -261,27 +261,33 @@ func (x *Exec) targetRefs(k string) []Term {
 			}
 			continue
 		}
-		for _, kk := range locKeys(mt.loc) {
-			if kk == k {
-				out = append(out, mt.loc.Ref)
+		for _, kr := range locKeys(mt.loc) {
+			if kr.key == k {
+				out = append(out, kr.ref)
 			}
 		}
 	}
 	return out
 }
 
-// locKeys lists the heap keys a location of any type occupies.
-func locKeys(l *Loc) []string {
+type keyRef struct {
+	key string
+	ref Term
+}
+
+// locKeys lists the heap keys a location of any type occupies, each with the reference it is stored at
+// (embedded structs and arrays live at references of their own).
+func locKeys(l *Loc) []keyRef {
 	if st, ok := l.T.Underlying().(*types.Struct); ok {
-		var out []string
+		var out []keyRef
 		for i := 0; i < st.NumFields(); i++ {
 			out = append(out, locKeys(l.Field(i))...)
 		}
 		return out
 	}
-	var out []string
+	var out []keyRef
 	for _, lf := range leaves(l.T) {
-		out = append(out, l.Prefix+lf.Path)
+		out = append(out, keyRef{l.Prefix + lf.Path, l.Ref})
 	}
 	return out
 }
